@@ -167,6 +167,8 @@ def rend(m, fl, first=False):
             m.src += ' '
             lo = len(m.src)
             m.src += '\\foreignlanguage{%s}{' % it[1]
+            # white space at the start of the inserted text: none, one character or a run (round-6 seed C14-J)
+            m.src += ['', ' ', '', '  ', '\n  ', '', '\t \t'][len(m.src) % 7]
             m.stack.append(lang)
             for j in range(it[2]):
                 if j:
